@@ -30,6 +30,8 @@ CLAIMED = {
          "Shows for every path through the bulk action loop that no status-deciding value is left over from a previous action, that every action stores exactly one response item, that each failure branch turns the errors flag on, that document parsing is behind the record-size gate, that pooled events are released once, and reports that a failed store call only reaches the log. Searchability of acknowledged items is not decided."),
  "C16": ("§3 C16", "static analysis: dominance/phi-edge analysis of every timestamp store next to a timestamp extraction (fallback discipline), backward value slices of EncodeDatapoint timestamps and GetNewPLE keys (DEPENDS), loop-header phi analysis of the OTLP item loops (LIVE)",
          "Shows on all paths that a time the event carries is never replaced by a fallback (stores of the extracted time only where non-zero, fallbacks only where the extraction or the current time is zero), that the OTLP log handler takes the event time from the record, that no metrics datapoint timestamp derives from a current-time source, that per-item attributes are not carried from one OTLP resource to the next, and that every protocol handler parses with the configured timestamp key. Attribute completeness and timestamp unit/spelling recognition are not decided."),
+ "C13": ("§3 C13", "static analysis: control-dependence GUARD of every org-tagged enumeration on the comparison with the caller's organisation, key-origin check of per-organisation maps, backward slices of the org argument of segment selection, path rule tying alias-file changes to the in-memory alias table, KEYSEP lint of the key-building functions",
+         "Finds every function that takes an organisation id and loops over elements carrying an organisation field and shows that a comparison of the two exists and governs every data-carrying effect of the loop; shows per-organisation maps are keyed by the organisation parameter, that segment selection never receives a constant organisation, that alias changes reach the in-memory table on every success path, and that stream ids / segment keys cannot collide across (index, organisation) pairs by unseparated concatenation. Wildcard/alias expansion semantics and tenant-blind deletes by index name are not decided."),
 }
 
 NOT_APPLICABLE = {
